@@ -579,3 +579,127 @@ func appendedThenSorted(H, exit *ssa.BasicBlock) bool {
 	}
 	return false
 }
+
+// KeyedFieldStores: for the range-over-map loops of fn, the fields of the
+// struct pointed to by `recv` that are stored under exactly one key of the
+// map: key -> field names.
+func KeyedFieldStores(fn *ssa.Function, recv ssa.Value) map[string]map[string]bool {
+	out := map[string]map[string]bool{}
+	for _, b := range fn.Blocks {
+		for _, in := range b.Instrs {
+			rg, ok := in.(*ssa.Range)
+			if !ok {
+				continue
+			}
+			if _, isMap := rg.X.Type().Underlying().(*types.Map); !isMap {
+				continue
+			}
+			var next *ssa.Next
+			for _, r := range *rg.Referrers() {
+				if n, ok := r.(*ssa.Next); ok {
+					next = n
+				}
+			}
+			if next == nil {
+				continue
+			}
+			var kVal ssa.Value
+			for _, r := range *next.Referrers() {
+				if ex, ok := r.(*ssa.Extract); ok && ex.Index == 1 {
+					kVal = ex
+				}
+			}
+			H := next.Block()
+			body := H.Succs[0]
+			// key sets by forward propagation over blocks dominated by the body entry
+			ks := map[*ssa.BasicBlock]keyset{body: {top: true}}
+			var order []*ssa.BasicBlock
+			for _, bb := range fn.Blocks {
+				if body.Dominates(bb) {
+					order = append(order, bb)
+				}
+			}
+			edge := func(from, to *ssa.BasicBlock) keyset {
+				base := ks[from]
+				iff, ok := from.Instrs[len(from.Instrs)-1].(*ssa.If)
+				if !ok {
+					return base
+				}
+				bo, ok := iff.Cond.(*ssa.BinOp)
+				if !ok || bo.Op != token.EQL && bo.Op != token.NEQ {
+					return base
+				}
+				var c *ssa.Const
+				if bo.X == kVal {
+					c, _ = bo.Y.(*ssa.Const)
+				} else if bo.Y == kVal {
+					c, _ = bo.X.(*ssa.Const)
+				}
+				if c == nil || c.Value == nil {
+					return base
+				}
+				eq := from.Succs[0]
+				if bo.Op == token.NEQ {
+					eq = from.Succs[1]
+				}
+				if to == eq && from.Succs[0] != from.Succs[1] {
+					return keyset{keys: map[string]bool{c.Value.ExactString(): true}}
+				}
+				return base
+			}
+			for changed, n := true, 0; changed && n < 50; n++ {
+				changed = false
+				for _, bb := range order {
+					if bb == body {
+						continue
+					}
+					var acc keyset
+					first := true
+					for _, pr := range bb.Preds {
+						if _, ok := ks[pr]; !ok || !body.Dominates(pr) {
+							continue
+						}
+						e := edge(pr, bb)
+						if first {
+							acc, first = e, false
+						} else {
+							acc = unionKS(acc, e)
+						}
+					}
+					if first {
+						continue
+					}
+					if old, had := ks[bb]; !had || old.String() != acc.String() {
+						ks[bb] = acc
+						changed = true
+					}
+				}
+			}
+			for _, bb := range order {
+				k, single := ks[bb].single()
+				if !single {
+					continue
+				}
+				for _, ins := range bb.Instrs {
+					st, ok := ins.(*ssa.Store)
+					if !ok {
+						continue
+					}
+					fa, ok := st.Addr.(*ssa.FieldAddr)
+					if !ok || fa.X != recv {
+						continue
+					}
+					f := FieldOfAddr(fa)
+					if f == nil {
+						continue
+					}
+					if out[k] == nil {
+						out[k] = map[string]bool{}
+					}
+					out[k][f.Name()] = true
+				}
+			}
+		}
+	}
+	return out
+}
